@@ -1741,33 +1741,35 @@ class multislater(wave_function_auto):
             wave_data["coeff"],
             wave_data["ref_det"],
         )
-        green = self._green_by_orbital(
-            self._calc_green_restricted(walker, wave_data), ref_det[0]
-        )
+        # the reference determinant may have different alpha and beta strings
+        green = self._calc_green(walker, walker, wave_data)
+        green = [
+            self._green_by_orbital(green[0], ref_det[0]),
+            self._green_by_orbital(green[1], ref_det[1]),
+        ]
 
         # overlap with the reference determinant
-        overlap_0 = (
-            jnp.linalg.det(walker[jnp.nonzero(ref_det[0], size=self.nelec[0])[0], :])
-            ** 2
-        )
+        overlap_0 = jnp.linalg.det(
+            walker[jnp.nonzero(ref_det[0], size=self.nelec[0])[0], :]
+        ) * jnp.linalg.det(walker[jnp.nonzero(ref_det[1], size=self.nelec[1])[0], :])
 
         # overlap / overlap_0
         overlap = coeff[(0, 0)] + 0.0j
 
         for i in range(1, self.max_excitation + 1):
             overlap += vmap(self._det_overlap, in_axes=(None, 0, 0))(
-                green, Acre[(i, 0)], Ades[(i, 0)]
+                green[0], Acre[(i, 0)], Ades[(i, 0)]
             ).dot(coeff[(i, 0)])
             overlap += vmap(self._det_overlap, in_axes=(None, 0, 0))(
-                green, Bcre[(0, i)], Bdes[(0, i)]
+                green[1], Bcre[(0, i)], Bdes[(0, i)]
             ).dot(coeff[(0, i)])
 
             for j in range(1, self.max_excitation - i + 1):
                 overlap_a = vmap(self._det_overlap, in_axes=(None, 0, 0))(
-                    green, Acre[(i, j)], Ades[(i, j)]
+                    green[0], Acre[(i, j)], Ades[(i, j)]
                 )
                 overlap_b = vmap(self._det_overlap, in_axes=(None, 0, 0))(
-                    green, Bcre[(i, j)], Bdes[(i, j)]
+                    green[1], Bcre[(i, j)], Bdes[(i, j)]
                 )
                 overlap += (overlap_a * overlap_b) @ coeff[(i, j)]
 
